@@ -51,6 +51,8 @@ type c17Args struct {
 	Probe    string       `json:"probe"`
 	AltDir   string       `json:"altdir,omitempty"`    // base name of the directory handed to WithWorkingDirectory
 	AltDot   *c17EnvFile  `json:"altdotenv,omitempty"` // its .env
+	DirLink  bool         `json:"dirlink,omitempty"`   // the project directory is a symbolic link
+	AltLink  bool         `json:"altlink,omitempty"`   // the working directory is a symbolic link
 }
 
 var c17ErrClasses = []struct {
